@@ -1438,7 +1438,12 @@ try_ready_normal_body (struct MHD_Connection *connection)
                                                                 copy_size);
     if (NULL == connection->rp.resp_iov.iov)
     {
-      MHD_mutex_unlock_chk_ (&response->mutex);
+#if defined(MHD_USE_POSIX_THREADS) || defined(MHD_USE_W32_THREADS)
+      /* The callers hold the response mutex only for responses with
+         a content reader callback */
+      if (NULL != response->crc)
+        MHD_mutex_unlock_chk_ (&response->mutex);
+#endif
       /* not enough memory */
       CONNECTION_CLOSE_ERROR (connection,
                               _ ("Closing connection (out of memory)."));
